@@ -78,7 +78,7 @@ MECH_D02 = "range-removed-from-settings-stays-applied"
 MECH_F32 = "range-bounds-compared-in-single-precision"
 MECH_ZERO = "polygon-id-zero-dropped-on-list-assignment"
 
-K_RAND, K_ENUM = 0, 1
+K_RAND, K_ENUM, K_CHILD = 0, 1, 2
 ALPHABET = ["apply", "apply_force", "range_set", "range_rev", "range_del", "range_eq",
             "poly_add_or_edit", "poly_remove", "poly_invert", "toggle_invalid",
             "toggle_enable", "reset"]
@@ -118,6 +118,9 @@ def plan(tier, seed):
         pos += 1
     for i in range(_n_seq(c["enum_len"]) * N_ENV):
         shards[pos % k]["cases"].append([K_ENUM, i])
+        pos += 1
+    for i in range(c["rand"] // 3):
+        shards[pos % k]["cases"].append([K_CHILD, i])
         pos += 1
     return shards
 
@@ -1168,6 +1171,86 @@ def _dtype_rounding_is_dont_care(ctx):
     ctx.violation, ctx.check = violation, check
 
 
+def run_child(ctx, idx):
+    """Members of a hierarchy carry their own range / polygon settings; their filter arrays
+    must equal the stateless evaluation of those settings on the member's *current* events,
+    whatever the ancestors selected before (the contract on Filter.update judges every member
+    at every refresh)."""
+    import dclab
+    from dclab.polygon_filter import PolygonFilter
+    rng = ctx.rng(idx, salt=5)
+    n = int(rng.integers(12, 70))
+    data = {"area_um": rng.uniform(10, 200, n), "deform": rng.uniform(0, 0.3, n),
+            "aspect": rng.uniform(0.8, 2.0, n), "bright_avg": rng.normal(100, 20, n)}
+    if rng.random() < 0.3:
+        data["deform"][rng.random(n) < 0.15] = np.nan
+    root = dclab.new_dataset(data)
+    levels = [root, dclab.new_dataset(root)]
+    if rng.random() < 0.4:
+        levels.append(dclab.new_dataset(levels[-1]))
+    polys = []
+    same_count_reselections = 0
+    member_settings = False
+    try:
+        levels[-1].rejuvenate()
+        for step in range(int(rng.integers(5, 16))):
+            r = rng.random()
+            if r < 0.3:
+                # an ancestor selects other events, the same number of them
+                L = int(rng.integers(0, len(levels) - 1))
+                m = np.asarray(levels[L].filter.manual)
+                k = int(m.sum()) if 0 < int(m.sum()) < len(m) else max(1, len(m) // 2)
+                new = np.zeros(len(m), dtype=bool)
+                new[rng.choice(len(m), min(k, len(m)), replace=False)] = True
+                levels[L].filter.manual[:] = new
+                if member_settings:
+                    same_count_reselections += 1
+            elif r < 0.4:
+                L = int(rng.integers(0, len(levels) - 1))
+                lo, hi = sorted(rng.uniform(0, 210, 2))
+                levels[L].config["filtering"]["area_um min"] = float(lo)
+                levels[L].config["filtering"]["area_um max"] = float(hi)
+            elif r < 0.65:
+                # range setting of a member below the root
+                L = int(rng.integers(1, len(levels)))
+                f = str(rng.choice(["deform", "aspect", "bright_avg"]))
+                arr = data[f][np.isfinite(data[f])]
+                lo, hi = sorted(rng.choice(arr, 2)) if rng.random() < 0.5 \
+                    else sorted(rng.uniform(arr.min(), arr.max(), 2))
+                fc = levels[L].config["filtering"]
+                if rng.random() < 0.15 and f"{f} min" in fc:
+                    fc.pop(f"{f} min")
+                    fc.pop(f"{f} max")
+                else:
+                    fc[f"{f} min"], fc[f"{f} max"] = float(lo), float(hi)
+                    member_settings = True
+            elif r < 0.75:
+                L = int(rng.integers(1, len(levels)))
+                cx, w_ = rng.uniform(0.9, 1.9), rng.uniform(0.1, 0.6)
+                pf = PolygonFilter(axes=("aspect", "bright_avg"),
+                                   points=[[cx - w_, -1e4], [cx + w_, -1e4], [cx + w_, 1e4],
+                                           [cx - w_, 1e4]], inverted=bool(rng.random() < 0.3))
+                polys.append(pf)
+                levels[L].config["filtering"]["polygon filters"] = \
+                    list(levels[L].config["filtering"]["polygon filters"]) + [pf.unique_id]
+                member_settings = True
+            else:
+                levels[-1].rejuvenate()
+                ctx.count("hierarchy_refreshes")
+        levels[-1].rejuvenate()
+        ctx.count(f"hierarchy_cases[depth {len(levels) - 1}]")
+        ctx.count("same_count_reselections_above_a_member_with_settings",
+                  same_count_reselections)
+        if same_count_reselections:
+            ctx.mark_nontrivial("h%015x" % idx[1])
+    finally:
+        for pf in polys:
+            try:
+                PolygonFilter.remove(pf.unique_id)
+            except Exception:
+                pass
+
+
 def run(spec, ctx):
     _dtype_rounding_is_dont_care(ctx)
     _St.ctx = ctx
@@ -1175,5 +1258,10 @@ def run(spec, ctx):
     for idx in ctx.case_ids():
         if idx[0] == K_RAND:
             run_rand(ctx, idx)
+        elif idx[0] == K_CHILD:
+            try:
+                run_child(ctx, idx)
+            except Exception as exc:
+                ctx.raised("no_exception", f"hierarchy case {idx}", exc)
         else:
             run_enum(ctx, idx)
